@@ -69,3 +69,13 @@ def lemma_detection_window_monotone(a: ObjT, b: ObjT, w1: Real, w2: Real, beta: 
         P1, R1, F1 = detection(a, b, w1, beta, trim)
         P2, R2, F2 = detection(a, b, w2, beta, trim)
         ensures(P1 <= P2, R1 <= R2, label='PR-monotone')
+
+
+@lemma("C02")
+def lemma_detection_perfect(a: ObjT, w: Real, beta: Real):
+    requires(valid_iv(a), w >= 0, beta > 0, n_bounds(a) >= 3)
+    for trim in [False, True]:
+        ra = bounds_of(a, trim)
+        mm_diagonal(length(ra), length(ra), hit(ra, ra, w))
+        P, R, F = detection(a, a, w, beta, trim)
+        ensures(P == 1, R == 1, F == 1, label='perfect')
